@@ -5,7 +5,9 @@ import (
 	"github.com/flowmatters/openwater-core/zzverif/vsym"
 )
 
-func c13storage(which int, balanceOnly bool) {
+func c13storage(which int, balanceOnly bool) { c13storagex(which, balanceOnly, 86400.0) }
+
+func c13storagex(which int, balanceOnly bool, dt float64) {
 	if balanceOnly {
 		// the balance is an identity in the per-sub-step areas and releases, whatever the tables
 		// say: table look-ups become uninterpreted functions, panics are left to the sibling harness
@@ -31,7 +33,6 @@ func c13storage(which int, balanceOnly bool) {
 		// H_C13_known_empty_evaporation); everything else about such tables is checked here
 		vsym.Assume(pet == 0)
 	}
-	dt := 86400.0
 	// the two "target" inputs (flood air space / minimum operating volume) are arbitrary: nothing in
 	// the property lets them move the spill threshold away from the full-supply volume or change
 	// the release rules
@@ -126,3 +127,12 @@ func H_C13_known_empty_evaporation() {
 		0, 0, 0, 86400, n, lv, vol, ar, mn, mx, volTS, outTS, rainV, evapV)
 	vsym.Assert(v1 >= 0, "volume-nonnegative")
 }
+
+// H_C13_storage_short_step: the small-pool tables with a timestep of 2 s (the documented range of
+// DeltaT is [1, 86400] s; 2 s is below the model's minimum sub-step of 6 s): same obligations.
+//vsym:prop=C13 tier=quick ints=int floats=real timeout=60 cut=1 unwind=12 maxruns=400
+func H_C13_storage_short_step() { c13storagex(2, false, 2) }
+
+// H_C13_storage_hourly: the 2-point tables with an hourly timestep.
+//vsym:prop=C13 tier=quick ints=int floats=real timeout=60 cut=1 unwind=12 maxruns=400
+func H_C13_storage_hourly() { c13storagex(0, false, 3600) }
